@@ -137,6 +137,21 @@ class Audit:
                             self.site(key, n, 'comprehension', ast.unparse(g.iter), self.judge_comp(fi, n, parents))
                 elif isinstance(n, ast.Call):
                     self.judge_call(key, fi, n, local, parents)
+                elif isinstance(n, ast.Starred) and self.expr_is_set(n.value, local):
+                    # [a, *some_set] / (x, *some_set) / f(*some_set): the set's iteration order becomes positional
+                    p = parents.get(id(n))
+                    if isinstance(p, ast.Set):
+                        self.site(key, n, 'conversion', f'*{ast.unparse(n.value)}', ('ok', 'unpacked into a set display'))
+                    elif isinstance(p, ast.Call) and isinstance(p.func, ast.Name) and p.func.id in ('sorted', 'set', 'frozenset',
+                                                                                                    'max', 'min'):
+                        self.site(key, n, 'conversion', f'*{ast.unparse(n.value)}', ('ok', f'consumed by {p.func.id}()'))
+                    else:
+                        self.site(key, n, 'conversion', f'*{ast.unparse(n.value)}',
+                                  ('violation', 'a set is unpacked into an ordered value'))
+                elif isinstance(n, ast.Assign) and isinstance(n.targets[0], (ast.Tuple, ast.List)) \
+                        and self.expr_is_set(n.value, local):
+                    self.site(key, n, 'conversion', f'unpack {ast.unparse(n.value)}',
+                              ('violation', 'a set is unpacked into named positions'))
         # module-level code
         return self.sites
 
